@@ -164,7 +164,7 @@ def family(tier):
         F.append(("lwh2", [VK_LWH(1), VK_LWH(2)], {"a": cust([op(1, "toggle")]), "b": cust([hfd(2, 3)]), "p": probe()},
                   [(0, "release"), (1, "tap")], 4, 3))
         F.append(("ops1_racy", [x], {"a": cust([op(1, "toggle")]), "b": pr}, [(0, "press"), (0, "toggle")], 3, 3))
-        F.append(("ops1_q4", [x], {"a": cust([op(1, "toggle")]), "b": pr}, [(0, o) for o in OPS], 4, 4))
+        F.append(("ops1_q4", [x], {"a": cust([op(1, "toggle")]), "b": pr}, [(0, "toggle"), (0, "tap")], 4, 4))
     return F
 
 
@@ -244,6 +244,17 @@ def finding_scripts(kdesc, direct):
     return out
 
 
+def equiv_instance():
+    """The same four operations on one virtual key from three triggers at once: keys (on-press), single-item
+    macros, direct calls.  Too many keys for an exhaustive instance: recorded traces only."""
+    kdesc = {}
+    for n, o in zip("abcd", OPS):
+        kdesc[n] = cust([op(1, o)])
+    for n, o in zip("efgh", OPS):
+        kdesc[n] = macro(("p", op(1, o)))
+    return [VK_KEY("x")], kdesc, [(0, o) for o in OPS]
+
+
 def seq_instance():
     """The sequence-termination trigger (defseq): not in the L1 model; covered by recorded traces only."""
     vks = [VK_KEY("x"), VK_KEY("y")]
@@ -315,6 +326,11 @@ def run(tier, seed):
     jobs_random.append({"cfg": kbd, "params": params, "tag": "s:seq",
                         "scripts": [seq_script(rng, rng.randint(1, 5)) for _ in range(30 if tier == "quick" else 200)]})
     res.samples.append({"instance": "seq (recorded traces only)", "kbd": kbd})
+    vks, kdesc, direct = equiv_instance()
+    kbd, params = make(vks, kdesc)
+    jobs_random.append({"cfg": kbd, "params": params, "tag": "e:equiv",
+                        "scripts": [rand_script(rng, kdesc, direct, rng.randint(6, 40), [0, 1, 1, 2, 3, 6], 30, clean=j % 4 != 3)
+                                    for j in range(40 if tier == "quick" else 300)]})
     for label, jobs in (("witness", witness_jobs), ("random", jobs_random)):
         if not jobs:
             continue
